@@ -142,6 +142,45 @@ def tlc_gen_bfs(ctx, module, timeout=1200):
     return scen
 
 
+def tlc_impl_cex(ctx, module, timeout=1500, per_clause=3):
+    """Refinement check of a mechanism-level configuration (BusImpl) against the
+    contract. Returns (stats, counterexamples): each counterexample is a request
+    history (list of events) that the MECHANISM MODEL performs and the contract
+    rejects, with the violated clauses; at most per_clause shortest ones per
+    distinct clause set. They are design-level only until replayed on the code."""
+    d = _spec_copy(ctx, "impl_" + module)
+    cmd = _java("12g") + ["-workers", str(min(10, NCPU)), "-metadir", os.path.join(d, "md"), module + ".tla"]
+    try:
+        r = subprocess.run(cmd, cwd=d, capture_output=True, text=True, timeout=timeout)
+    except subprocess.TimeoutExpired:
+        raise ToolError("TLC timed out on %s" % module)
+    if "Model checking completed. No error has been found." not in r.stdout:
+        raise ToolError("TLC failed on %s:\n%s" % (module, r.stdout[-3000:]))
+    m = STATS_RE.findall(r.stdout)
+    stats = {"module": module, "states": int(m[-1][0].replace(",", "")), "distinct": int(m[-1][1].replace(",", ""))}
+    groups = {}
+    total = 0
+    dec = json.JSONDecoder()
+    for line in r.stdout.splitlines():
+        if not line.startswith('<<"CEX", '):
+            continue
+        body = line[len('<<"CEX", '):-2]
+        a, i = dec.raw_decode(body)
+        b, _ = dec.raw_decode(body[i:].lstrip(", "))
+        hist, viols = json.loads(a), tuple(sorted(json.loads(b)))
+        total += 1
+        groups.setdefault(viols, []).append(hist)
+    out = []
+    for viols, hs in sorted(groups.items()):
+        hs.sort(key=lambda h: (len(h), json.dumps(h, sort_keys=True)))
+        for h in hs[:per_clause]:
+            out.append({"viols": list(viols), "hist": h})
+    stats["counterexamples"] = total
+    stats["clause_sets"] = [list(k) for k in sorted(groups)]
+    shutil.rmtree(d, ignore_errors=True)
+    return stats, out
+
+
 def write_scenarios(path, scens):
     with open(path, "w") as f:
         for s in scens:
